@@ -12,12 +12,14 @@ in `Rat` (polynomial kernels).  Numbers arrive as exact rationals; vectors as `n
   F  matern <nu2> <grad 0/1> <ℓ> <mean> <X1> <X2>
   B  rbf|matern <go> <saved>              generated backward, elementwise
   P  <q> <j> <r…>                         generated _fmax·_get_cov  |  PS: the documented polynomial
+  GK <family> <params…> <X1> <X2>         terms of Gen/KernelFormulas.lean (regenerated kernel forwards / sq_dist / dist)
   NG <z> <s>                              Newton–Girard: coded recursion and defining recursion
   MT <n> (<kern> <B> <v>)ⁿ <X1> <X2>      Σ data-kernel ⊗ task-kernel (Multitask / LCM), interleaved layout
   IX <B> <v> <idx1> <idx2>                IndexKernel lookups (Rat)
 -/
 import GPVerif.Model.Kernels
 import GPVerif.Gen.Formulas
+import GPVerif.Gen.KernelFormulas
 import GPVerif.Model.Proto
 
 open Kernels Scalar
@@ -134,10 +136,58 @@ def runMT (ts : List String) : Option (List (List α)) := do
 
 end run
 
+/-- generated kernel forwards (`Gen/KernelFormulas.lean`) with the Euclidean callbacks -/
+def runGK (ts : List String) : Option (List (List Float)) :=
+  let sqd : List Float → List Float → Float := Scalar.sqDist
+  let dst : List Float → List Float → Float := Scalar.dist
+  let fin (f : List Float → List Float → Float) (ts : List String) : Option (List (List Float)) := do
+    let (X1, ts) ← pMat (α := Float) ts; let (X2, _) ← pMat ts
+    some (kernMatrix f X1 X2)
+  match ts with
+  | "rbf" :: ts => do let (ls, ts) ← pVec ts; fin (fun a b => Gen.KernelFormulas.rbfGeneric sqd dst a b ls) ts
+  | "rbfgen" :: ts => do
+      let (ls, ts) ← pVec ts; let (c, ts) ← pVec ts
+      fin (fun a b => Gen.KernelFormulas.rbfGeneric (fun u v => Gen.KernelFormulas.sqDistGen u v c) dst a b ls) ts
+  | "matern" :: nu2 :: ts => do
+      let (ls, ts) ← pVec ts; let (c, ts) ← pVec ts
+      match nu2 with
+      | "1" => fin (fun a b => Gen.KernelFormulas.matern12Generic sqd dst a b c ls) ts
+      | "3" => fin (fun a b => Gen.KernelFormulas.matern32Generic sqd dst a b c ls) ts
+      | "5" => fin (fun a b => Gen.KernelFormulas.matern52Generic sqd dst a b c ls) ts
+      | _ => none
+  | "rq" :: ts => do
+      let (ls, ts) ← pVec ts; let (al, ts) ← pNum ts; fin (fun a b => Gen.KernelFormulas.rq sqd dst a b ls al) ts
+  | "periodic" :: ts => do
+      let (ls, ts) ← pVec ts; let (ps, ts) ← pVec ts; fin (fun a b => Gen.KernelFormulas.periodic sqd dst a b ls ps) ts
+  | "cosine" :: ts => do let (p, ts) ← pNum ts; fin (fun a b => Gen.KernelFormulas.cosine sqd dst a b p) ts
+  | "linear" :: ts => do let (v, ts) ← pVec ts; fin (fun a b => Gen.KernelFormulas.linear a b v) ts
+  | "linearsame" :: ts => do let (v, ts) ← pVec ts; fin (fun a b => Gen.KernelFormulas.linearSame a b v) ts
+  | "poly" :: ts => do
+      let (c, ts) ← pNum ts; let (p, ts) ← pNat ts; fin (fun a b => Gen.KernelFormulas.polynomial a b c p) ts
+  | "polyb" :: ts => do
+      let (c, ts) ← pNum ts; let (p, ts) ← pNat ts; fin (fun a b => Gen.KernelFormulas.polynomialBatched a b c p) ts
+  | "polyd" :: ts => do
+      let (c, ts) ← pNum ts; let (p, ts) ← pNat ts; fin (fun a b => Gen.KernelFormulas.polynomialDiag a b c p) ts
+  | "pp" :: q :: ts => do
+      let (ls, ts) ← pVec ts
+      match q with
+      | "0" => fin (fun a b => Gen.KernelFormulas.piecewisePolynomial0 sqd dst a b ls) ts
+      | "1" => fin (fun a b => Gen.KernelFormulas.piecewisePolynomial1 sqd dst a b ls) ts
+      | "2" => fin (fun a b => Gen.KernelFormulas.piecewisePolynomial2 sqd dst a b ls) ts
+      | "3" => fin (fun a b => Gen.KernelFormulas.piecewisePolynomial3 sqd dst a b ls) ts
+      | _ => none
+  | "const" :: ts => do let (c, ts) ← pNum ts; fin (fun a b => Gen.KernelFormulas.constantK a b c) ts
+  | "sqdist" :: ts => do let (c, ts) ← pVec ts; fin (fun a b => Gen.KernelFormulas.sqDistGen a b c) ts
+  | "sqdistsame" :: ts => do let (c, ts) ← pVec ts; fin (fun a b => Gen.KernelFormulas.sqDistGenSameOff a b c) ts
+  | "dist" :: ts => do let (c, ts) ← pVec ts; fin (fun a b => Gen.KernelFormulas.distGen dst a b c) ts
+  | "distsame" :: ts => do let (c, ts) ← pVec ts; fin (fun a b => Gen.KernelFormulas.distGenSameOff dst a b c) ts
+  | _ => none
+
 def stepF (ts : List String) : Option String :=
   match ts with
   | "K" :: ts => (runK (α := Float) ts).map showMatF
   | "G" :: ts => (runG (α := Float) ts).map showMatF
+  | "GK" :: ts => (runGK ts).map showMatF
   | "MT" :: ts => (runMT (α := Float) ts).map showMatF
   | "I" :: "rbf" :: ts => do
       let (ls, ts) ← pVec (α := Float) ts; let (c, ts) ← pVec ts
